@@ -9,7 +9,10 @@ for d in sorted(os.listdir(os.path.join(HERE, 'seeded'))):
         continue
     m = json.load(open(mp))
     notes = (m.get('needs_to_manifest') or '').replace('\n', ' ')
-    first = re.split(r'(?<=[.:])\s', notes.strip(), 1)[0][:150]
+    t = re.sub(r'[`*]', '', notes.strip())
+    t = re.sub(r'^(?:[-#\s]*)(?:Change\s*\d*\s*(?:\([^)]*\))?\s*[:\u2014-]+\s*|What(?: it does)?\s*:\s*)+', '', t, flags=re.I)
+    t = re.sub(r'\s+', ' ', t)
+    first = (t[:170].rsplit(' ', 1)[0] + ' …') if len(t) > 170 else t
     det = m.get('detected_by')
     ran = m.get('ran', [])
     how = []
